@@ -272,6 +272,7 @@ func main() {
 				}
 				emit("RUN", rep)
 				emit("END", map[string]any{"runs": done + 1, "wall_s": time.Since(t0).Seconds(), "hang": true})
+				os.RemoveAll(flScratch)
 				os.Exit(0)
 			}
 		}
